@@ -22,6 +22,10 @@ func builtinChecks(e *Engine, prop, tier string) []*groupResult {
 		gs = append(gs, cellCodeCheck(e, "msToLines", 4, e.x.intTable1("render", "msEdgeTable"), e.x.intTable2("render", "msPairTable"), e.x.intTable2("render", "msLineTable"), 2, "msInterpolate"))
 		gs = append(gs, tablesImmutable(e, []string{"msEdgeTable", "msPairTable", "msLineTable"}))
 		return gs
+	case "C13":
+		return stlLayoutChecks(e)
+	case "C11":
+		return bufferLockChecks(e)
 	case "C10":
 		gs, assumed := frameChecks(e)
 		for _, a := range assumed {
@@ -145,4 +149,123 @@ func tablesImmutable(e *Engine, names []string) *groupResult {
 		g.Detail = strings.Join(bad, "; ")
 	}
 	return g
+}
+
+// bufferLockChecks: guarded_by lock: buf for the output buffers (several
+// producers may call Write concurrently; each call must be atomic).
+func bufferLockChecks(e *Engine) []*groupResult {
+	x := e.x
+	fa := newFrameAn(x.prog)
+	var out []*groupResult
+	pkg := x.pkgByNm["sdf"]
+	for _, tn := range []string{"Triangle3Buffer", "Line2Buffer"} {
+		o := pkg.Pkg.Scope().Lookup(tn)
+		if o == nil {
+			continue
+		}
+		for _, mn := range []string{"Write", "Close"} {
+			fn := x.findMethod(types.NewPointer(o.Type()), mn)
+			if fn == nil {
+				continue
+			}
+			g := &groupResult{Name: "sdf." + tn + "." + mn + "/buf-guarded-by-lock", Status: "discharged", Queries: 1, Backends: []string{"frame"}, What: "every access to the buf field happens between lock.Lock() and lock.Unlock() (each Write/Close is atomic, so concurrent producers interleave whole calls)"}
+			bad := fa.unguardedReads(x, fn, map[string]bool{"buf": true}, e.repo)
+			// the function must actually take the lock
+			if !fa.takesLock(fn) {
+				bad = append(bad, "no Lock() call in "+shortFn(fn))
+			}
+			if len(bad) > 0 {
+				g.Status = "refuted"
+				g.Detail = strings.Join(bad, "; ")
+			}
+			out = append(out, g)
+		}
+	}
+	return out
+}
+
+// stlLayoutChecks: facts about the record types handed to encoding/binary,
+// computed from the real declarations (binary.Write lays fixed-size values
+// out field by field without padding - assumption A6).
+func stlLayoutChecks(e *Engine) []*groupResult {
+	x := e.x
+	pkg := x.pkgByNm["render"]
+	var out []*groupResult
+	packed := func(t types.Type) int64 {
+		var f func(t types.Type) int64
+		f = func(t types.Type) int64 {
+			switch u := t.Underlying().(type) {
+			case *types.Basic:
+				switch u.Kind() {
+				case types.Uint8, types.Int8, types.Bool:
+					return 1
+				case types.Uint16, types.Int16:
+					return 2
+				case types.Uint32, types.Int32, types.Float32:
+					return 4
+				case types.Uint64, types.Int64, types.Float64:
+					return 8
+				}
+				return -1 << 40
+			case *types.Array:
+				return u.Len() * f(u.Elem())
+			case *types.Struct:
+				var s int64
+				for i := 0; i < u.NumFields(); i++ {
+					s += f(u.Field(i).Type())
+				}
+				return s
+			}
+			return -1 << 40
+		}
+		return f(t)
+	}
+	check := func(name, what string, ok bool, detail string) {
+		g := &groupResult{Name: "render." + name, Status: "discharged", Queries: 1, Backends: []string{"types"}, What: what}
+		if !ok {
+			g.Status = "refuted"
+			g.Detail = detail
+		}
+		out = append(out, g)
+	}
+	if o := pkg.Pkg.Scope().Lookup("STLHeader"); o != nil {
+		st := o.Type().Underlying().(*types.Struct)
+		ok := st.NumFields() == 2 && packed(st.Field(0).Type()) == 80 && st.Field(1).Name() == "Count" && packed(st.Field(1).Type()) == 4
+		if ok {
+			b, isB := st.Field(1).Type().Underlying().(*types.Basic)
+			ok = isB && b.Kind() == types.Uint32
+		}
+		check("STLHeader/layout", "STLHeader is 80 header bytes followed by a uint32 count (84 bytes packed)", ok && packed(o.Type()) == 84, fmt.Sprintf("packed size %d, fields %v", packed(o.Type()), st))
+	} else {
+		check("STLHeader/layout", "STLHeader exists", false, "type not found")
+	}
+	if o := pkg.Pkg.Scope().Lookup("STLTriangle"); o != nil {
+		st := o.Type().Underlying().(*types.Struct)
+		want := []string{"Normal", "Vertex1", "Vertex2", "Vertex3", "_"}
+		ok := st.NumFields() == 5
+		for i := 0; ok && i < 5; i++ {
+			if st.Field(i).Name() != want[i] {
+				ok = false
+			}
+		}
+		for i := 0; ok && i < 4; i++ {
+			a, isA := st.Field(i).Type().Underlying().(*types.Array)
+			if !isA || a.Len() != 3 {
+				ok = false
+				break
+			}
+			bt, isB := a.Elem().Underlying().(*types.Basic)
+			if !isB || bt.Kind() != types.Float32 {
+				ok = false
+			}
+		}
+		if ok {
+			bt, isB := st.Field(4).Type().Underlying().(*types.Basic)
+			ok = isB && bt.Kind() == types.Uint16
+		}
+		check("STLTriangle/layout", "STLTriangle is normal, vertex1, vertex2, vertex3 (3 x float32 each) and a uint16 attribute, in that order (50 bytes packed); the attribute field is blank, so never written by the code", ok && packed(o.Type()) == 50, fmt.Sprintf("packed size %d, fields %v", packed(o.Type()), st))
+	} else {
+		check("STLTriangle/layout", "STLTriangle exists", false, "type not found")
+	}
+	return out
 }
